@@ -1,7 +1,10 @@
 """C08: resume loses nothing, repeats only the tied group.
 Implementation = PcfgQueue(pcfg, save_config) restore path of /repo; model =
 restore_gen / resume_start_gen of Next.v with the comparison of
-is_parent_around taken from the source (gen/Consts_gen.v)."""
+is_parent_around taken from the source (gen/Consts_gen.v).
+Beside the random small rulesets (every cut point), harness/deep_restore.py adds sessions
+saved far down two long terminal lists (save state built directly, restored queue and first
+pops against the enumeration of the grid, a second save/restore cycle, scaled-down model cases)."""
 import json
 import os
 import subprocess
